@@ -147,6 +147,18 @@ def rule_Y2(ctx: Ctx) -> None:
     ctx.judge(f, not stray, {"image_stores_outside_the_cell_loops": [X.U(x)[:80] for x in stray]},
               "the image is written only by the per-cell stores (cell block, strip below, strip to the right)",
               "a later masked store repaints pixels by value: cell blocks / strips that happen to carry that value lose it (e.g. a cell value of -1 becomes nan)")
+    # ... nor does any caller that receives the image (the plotting wrapper hands it to imshow as it is)
+    for mname, m_ in ctx.index.cls(MP).methods.items():
+        names = {X.U(a.targets[0]) for a in ast.walk(m_.node) if isinstance(a, ast.Assign) and isinstance(a.value, ast.Call) and X.U(a.value.func).endswith("_lattice_maze_to_img")
+                 and isinstance(a.targets[0], ast.Name)}
+        if not names:
+            continue
+        later = [st_ for st_ in ast.walk(m_.node) if isinstance(st_, (ast.Assign, ast.AugAssign))
+                 and isinstance(st_.targets[0] if isinstance(st_, ast.Assign) else st_.target, ast.Subscript)
+                 and X.U((st_.targets[0] if isinstance(st_, ast.Assign) else st_.target).value) in names]
+        ctx.judge(m_, not later, {"image_from": "_lattice_maze_to_img", "stores_into_the_image_afterwards": [X.U(x)[:80] for x in later]},
+                  "the image built by _lattice_maze_to_img is displayed as it is: no caller repaints it",
+                  "a store selected by value (img[img == v] = ...) repaints every cell block / strip that carries that value: the plot no longer shows the maze and values given")
     found = {"node": None, 0: None, 1: None}
     par = X.parents_map(f.node)
     for s in stores:
